@@ -353,7 +353,7 @@ func init() {
 		for _, a := range [][]int{{0, 0, 1}, {1, 0, 1}, {0, 1, 1}, {1, 1, 0}} {
 			js = append(js, J("plugin/proxy", "VX_C19_ProxyPush", a...))
 		}
-		js = append(js, J("plugin/proxy", "VX_C19_Sequence", 3), J("plugin/proxy", "VX_C19_OverlappingProxied", 2, 2), J("plugin/proxy", "VX_C19_OverlappingProxied", 3, 1), J("plugin/proxy", "VX_C19_OverlappingProxied", 1, 3))
+		js = append(js, J("plugin/proxy", "VX_C19_Sequence", 3), J("plugin/proxy", "VX_C19_PoolForwarderDown", 0), J("plugin/proxy", "VX_C19_PoolForwarderDown", 1), J("plugin/proxy", "VX_C19_OverlappingProxied", 2, 2), J("plugin/proxy", "VX_C19_OverlappingProxied", 3, 1), J("plugin/proxy", "VX_C19_OverlappingProxied", 1, 3))
 		js = append(js, J("plugin/proxy", "VX_C19_RealIPAfterSetID", 0, 0), J("plugin/proxy", "VX_C19_RealIPAfterSetID", 1, 0), J("plugin/proxy", "VX_C19_RealIPAfterSetID", 0, 1), J("plugin/proxy", "VX_C19_BackendLoss", 0, 0), J("plugin/proxy", "VX_C19_BackendLoss", 1, 0), J("plugin/proxy", "VX_C19_BackendLoss", 0, 1), J("plugin/proxy", "VX_C19_BackendLoss", 1, 1))
 		if tier == "thorough" {
 			js = append(js, J("plugin/proxy", "VX_C19_Sequence", 4))
